@@ -55,8 +55,8 @@ def add(ro, m):
 def shares(a, b):
     """some Element object is reachable from both trees (spec/MosAlias.tla: NoSharedNodes, on the real heap)"""
     try:
-        ids = {id(e) for e in a.xml.iter()}
-        return any(id(e) in ids for e in b.xml.iter())
+        ids = {id(e) for e in a.xml.iter()} | {id(e.attrib) for e in a.xml.iter() if e.attrib}
+        return any(id(e) in ids or (e.attrib and id(e.attrib) in ids) for e in b.xml.iter())
     except Exception:  # noqa: BLE001
         return False
 
